@@ -9,6 +9,7 @@
   term ⇒ identical prefixes") is in Properties/Cluster*.lean.
 -/
 import RaftVerif.Proofs.AppendEntries
+import RaftVerif.Proofs.ReplSafety
 namespace Raft
 open Log
 
@@ -120,5 +121,16 @@ example : AEPre exNode exReq := ⟨by decide, by decide, by decide⟩
 example : ∃ n' r eff, appendEntries exNode 1000 exReq = some (n', r, eff) ∧ r.success = true ∧
     n'.commitIndex = 3 ∧ Effect.logTruncate 3 ∈ eff ∧ n'.log.ents.length = 4 := by
   refine ⟨_, _, _, rfl, ?_, ?_, ?_, ?_⟩ <;> decide
+
+/-! ### Cluster level (Proofs/ReplSafety.lean) -/
+
+/-- **Log matching, globally.** In every reachable state of the replication-layer model: if
+    two nodes hold an entry of the same term at the same index, their logs are identical up to
+    that index. -/
+theorem C06_log_matching {cfg : Config} (hnd : cfg.voterIds.Nodup) {s : Repl.AState} (hr : Repl.Reachable cfg s) (a b i : Nat)
+    (h1 : 1 ≤ i) (ha : i ≤ (s.nodes a).log.length) (hb : i ≤ (s.nodes b).log.length)
+    (ht : Repl.termAt (s.nodes a).log i = Repl.termAt (s.nodes b).log i) :
+    (s.nodes a).log.take i = (s.nodes b).log.take i :=
+  Repl.log_matching hnd hr a b i h1 ha hb ht
 
 end Raft
